@@ -70,8 +70,13 @@ func (ch *Channel) Start() {
 
 			ch.subscribersRWMut.RLock()
 
+			// Subscribers are written to concurrently, but a message is fully handed out
+			// before the next one is taken, so every subscriber sees publish order.
+			wg := sync.WaitGroup{}
 			for _, conn := range ch.subscribers {
+				wg.Add(1)
 				go func(conn *resp.Conn) {
+					defer wg.Done()
 					if err := conn.WriteArray([]resp.Value{
 						resp.StringValue("message"),
 						resp.StringValue(ch.name),
@@ -81,6 +86,7 @@ func (ch *Channel) Start() {
 					}
 				}(conn)
 			}
+			wg.Wait()
 
 			ch.subscribersRWMut.RUnlock()
 		}
